@@ -283,7 +283,13 @@ class Report(PropertyTreeNode, MessageHandler):
         """
         output_dir = self.project.outputDir or "./"
         base_name = self.name or self.id
-        return Path(output_dir) / f"{base_name}.{extension}"
+        path = Path(output_dir) / f"{base_name}.{extension}"
+        # A report name may contain sub-directories, but it must not leave the output directory
+        # (absolute names or '..' components): fall back to the bare file name in that case
+        root = Path(output_dir).resolve()
+        if root != path.resolve().parent and root not in path.resolve().parents:
+            path = Path(output_dir) / f"{Path(str(base_name)).name}.{extension}"
+        return path
 
     def _generate_json(self) -> None:
         """Generate JSON output."""
